@@ -638,7 +638,7 @@ func (g *rgen) body(bc *bodyCtx, d, n int, needKey bool) *Type {
 			T := g.randType()
 			nm := g.b.fresh("t")
 			bc.addLet(nm, T, &Stmt{Let: true, Name: nm, E: g.expr(bc, T, d)})
-		case k < 8 && own.T.K == KList && !own.T.Elem.hasMap():
+		case k < 8 && !own.dead && own.T.K == KList && !own.T.Elem.hasMap():
 			// the scope variable is a list: concatenate onto it twice
 			e1, _ := literal(g.value(own.T.Elem, false))
 			e2, _ := literal(g.value(own.T.Elem, false))
@@ -648,7 +648,7 @@ func (g *rgen) body(bc *bodyCtx, d, n int, needKey bool) *Type {
 			t, T := g.transformStmt(bc, minInt(d, 1))
 			field(T, &Stmt{T: t})
 		default:
-			if own.T.isScalar() || own.T.isColl() {
+			if !own.dead && (own.T.isScalar() || own.T.isColl()) {
 				field(own.T, &Stmt{E: g.use(own)})
 			} else {
 				field(tInt, &Stmt{E: g.expr(bc, tInt, d)})
